@@ -19,7 +19,10 @@ import (
 	"regexp"
 	"sort"
 	"strconv"
+	"os"
+	"path/filepath"
 	"strings"
+	"sync"
 	"time"
 
 	"github.com/blugelabs/bluge"
@@ -320,6 +323,7 @@ type sxALayout struct {
 	Snap    *index.Snapshot
 	NumToV  []*sVersion // global number -> version
 	Deleted []bool
+	Broken  string // the reader resolves a global number to another document than the layout says
 }
 
 func sxSnapshotOf(rd *bluge.Reader) (*index.Snapshot, error) {
@@ -338,38 +342,51 @@ func sxSnapshotOf(rd *bluge.Reader) (*index.Snapshot, error) {
 	return snap, nil
 }
 
+// sxObserveLayout reads the physical layout: per segment (index.VerifSnapshotInfo) the stored
+// version field of every local document number and the deleted bitmap.  The global numbers of
+// the model are those of the documentation: a segment starts where the full sizes of the
+// segments before it end.  The reader's own resolution of every global number is compared with
+// that (Broken) instead of being trusted.
 func sxObserveLayout(rd *bluge.Reader, c *sCorpus) (*sxALayout, error) {
-	snap, err := sxSnapshotOf(rd)
-	if err != nil {
-		return nil, err
+	snap := rd.VerifSnapshot()
+	if snap == nil {
+		return nil, fmt.Errorf("reader without snapshot")
 	}
 	lay := &sxALayout{Snap: snap}
+	_, segs := index.VerifSnapshotInfo(snap)
 	num := uint64(0)
-	for _, seg := range snap.Segments() {
-		fs, ok := seg.(interface{ FullSize() int64 })
-		if !ok {
-			return nil, fmt.Errorf("segment snapshot without FullSize")
-		}
-		n := int(fs.FullSize())
+	for _, seg := range segs {
 		as := sxASeg{}
-		del := seg.Deleted()
-		for l := 0; l < n; l++ {
+		del := map[uint32]bool{}
+		for _, d := range seg.Deleted {
+			del[d] = true
+		}
+		if uint64(len(seg.Docs)) != seg.Count {
+			return nil, fmt.Errorf("segment %d: %d documents described, count %d", seg.ID, len(seg.Docs), seg.Count)
+		}
+		for l, desc := range seg.Docs {
 			ver := -1
+			if i := strings.IndexByte(desc, 0); i >= 0 {
+				if x, err := strconv.Atoi(desc[i+1:]); err == nil {
+					ver = x
+				}
+			}
+			if ver < 0 || ver >= len(c.Versions) {
+				return nil, fmt.Errorf("segment %d document %d without version field", seg.ID, l)
+			}
+			seen := -1
 			err := rd.VisitStoredFields(num, func(field string, value []byte) bool {
 				if field == "v" {
-					ver, _ = strconv.Atoi(string(value))
+					seen, _ = strconv.Atoi(string(value))
 				}
 				return true
 			})
-			if err != nil {
-				return nil, err
-			}
-			if ver < 0 || ver >= len(c.Versions) {
-				return nil, fmt.Errorf("document %d without version field", num)
+			if lay.Broken == "" && (err != nil || seen != ver) {
+				lay.Broken = fmt.Sprintf("global number %d is local %d of segment %d (document version %d) but the reader resolves it to version %d (err %v)", num, l, seg.ID, ver, seen, err)
 			}
 			as.Docs = append(as.Docs, c.Versions[ver])
 			lay.NumToV = append(lay.NumToV, c.Versions[ver])
-			isDel := del != nil && del.Contains(uint32(l))
+			isDel := del[uint32(l)]
 			lay.Deleted = append(lay.Deleted, isDel)
 			if isDel {
 				as.Del = append(as.Del, l)
@@ -1505,6 +1522,62 @@ func sxOptimizableLeaf(q *sxGq) bool {
 	return false
 }
 
+// sxTargetedQueries: conjunctions and disjunctions of 2-3 plain term clauses over the most
+// frequent keyword (field k: frequency 1, no positions) and the most frequent words of the text
+// field: the shapes that scoring "none" rewrites into bitmap operations per segment
+// (index/optimize.go), whose per-segment state depends on how each segment encodes its postings
+// (a merged segment encodes a term of a single document as a "1-hit" list).
+func sxTargetedQueries(c *sCorpus) []*sxGq {
+	kwCount, wordCount := map[string]int{}, map[string]int{}
+	for _, v := range c.Live {
+		if v.HasKw {
+			kwCount[v.Kw]++
+		}
+		for _, t := range v.an[sxFT] {
+			wordCount[string(t.Term)]++
+		}
+	}
+	rank := func(m map[string]int) []string {
+		var ks []string
+		for k := range m {
+			ks = append(ks, k)
+		}
+		sort.Slice(ks, func(i, j int) bool {
+			if m[ks[i]] != m[ks[j]] {
+				return m[ks[i]] > m[ks[j]]
+			}
+			return ks[i] < ks[j]
+		})
+		return ks
+	}
+	kws, words := rank(kwCount), rank(wordCount)
+	if len(kws) == 0 || len(words) == 0 {
+		return nil
+	}
+	pick := func(l []string, i int) string {
+		if i >= len(l) {
+			i = len(l) - 1
+		}
+		return l[i]
+	}
+	k := func(i int) *sxGq { return &sxGq{Kind: sxQTerm, F: sxFK, Term: pick(kws, i)} }
+	t := func(i int) *sxGq { return &sxGq{Kind: sxQTerm, F: sxFT, Term: pick(words, i)} }
+	conj := func(l ...*sxGq) *sxGq { return &sxGq{Kind: sxQBool, Must: l} }
+	disj := func(min int, l ...*sxGq) *sxGq { return &sxGq{Kind: sxQBool, Should: l, MinShould: min} }
+	return []*sxGq{
+		conj(k(0), t(0)),
+		conj(k(0), t(1)),
+		conj(t(0), k(0), t(1)),
+		conj(k(1), t(0)),
+		conj(t(0), t(1)),
+		conj(t(2), k(0)),
+		disj(1, k(0), t(1)),
+		disj(1, k(0), k(1)),
+		disj(1, t(2), k(1), k(2)),
+		disj(2, k(0), t(0), t(1)),
+	}
+}
+
 // ---------------------------------------------------------------- the engine
 
 type sxSearchRun struct {
@@ -1548,6 +1621,13 @@ func runSearch(o Opts) error {
 			return err
 		}
 	}
+	nMerged := 6
+	if o.Thorough() {
+		nMerged = 24
+	}
+	if err := r.mergedCorpora(nCorpora, nMerged, nQueries*4/7, nScripts/2); err != nil {
+		return err
+	}
 	if o.Thorough() {
 		if err := r.exhaustive(); err != nil {
 			return err
@@ -1573,6 +1653,353 @@ func (r *sxSearchRun) openMem(c *sCorpus) (*bluge.Writer, *bluge.Reader, bluge.C
 	return w, rd, cfg, nil
 }
 
+// ---------------------------------------------------------------- layouts produced by a merge
+//
+// A merge introduction builds the new root differently from a batch introduction (the segments
+// that stay are copied, the merged one is appended, the number offsets are accumulated in its own
+// loop), and the next batch introduction recomputes everything: only a reader whose last
+// structural change is a merge sees what the merge introduction built.  Two ways to get there:
+//   file:   file-system directory, merge plan that never touches a segment with >= 5 live
+//           documents and merges the small ones; big batches first (they stay), then small
+//           batches that update/delete documents of the big ones; the file merger merges the
+//           small segments.
+//   memory: unsafe batches and a napping persister, file merging switched off: the big batches
+//           are persisted one by one, then the small batches arrive while the persister naps and
+//           are merged in memory by the persister (mergeSegmentBases -> introduceMerge).
+// The order of root replacements is recorded through index.VerifTrace; a reader is used only when
+// the last structural replacement up to its epoch was made by introduceMerge and the big segments
+// are followed by exactly one segment.  Nothing is written after that, except in the
+// "-then-batch" variants (every second pair): there one more batch follows the merge, so that a
+// fresh unmerged segment stands behind a merged one.
+
+type sxRootLog struct {
+	mu  sync.Mutex
+	evs map[*index.Writer][]sxRootEv
+}
+
+type sxRootEv struct {
+	epoch   uint64
+	creator string
+}
+
+func (l *sxRootLog) install() {
+	l.evs = map[*index.Writer][]sxRootEv{}
+	index.VerifTrace = func(ev *index.VerifEvent) {
+		if ev.Kind != "root" {
+			return
+		}
+		l.mu.Lock()
+		l.evs[ev.Writer] = append(l.evs[ev.Writer], sxRootEv{ev.Epoch, ev.Creator})
+		l.mu.Unlock()
+	}
+}
+
+func (l *sxRootLog) uninstall() { index.VerifTrace = nil }
+
+// lastStructural: the creator of the last root up to the epoch that was not a persist introduction
+func (l *sxRootLog) lastStructural(w *index.Writer, epoch uint64) string {
+	l.mu.Lock()
+	defer l.mu.Unlock()
+	last := ""
+	for _, e := range l.evs[w] {
+		if e.epoch <= epoch && e.creator != "introducePersist" {
+			last = e.creator
+		}
+	}
+	return last
+}
+
+// sxGenMergeCorpus: nBig batches of 6-8 new documents, then two small batches (1-2 new documents
+// each) that delete/update documents of the big batches (every big batch keeps >= 5 live
+// documents, every small segment has <= 4) and of each other.
+func sxGenMergeCorpus(rng *rand.Rand, withTail bool) (c *sCorpus, nBig int) {
+	c = &sCorpus{Live: map[int]*sVersion{}}
+	perm := rng.Perm(len(sWordPool))
+	nv := 3 + rng.Intn(4)
+	for i := 0; i < nv; i++ {
+		c.Vocab = append(c.Vocab, sWordPool[perm[i]])
+	}
+	newV := func(id int) *sVersion {
+		sv := sxGenVersion(rng, len(c.Versions), id, c.Vocab)
+		c.Versions = append(c.Versions, sv)
+		return sv
+	}
+	nBig = 1 + rng.Intn(2)
+	id := 0
+	var bigIDs [][]int
+	for b := 0; b < nBig; b++ {
+		var ops []sOp
+		var ids []int
+		for n := 6 + rng.Intn(3); n > 0; n-- {
+			id++
+			ops = append(ops, sOp{Kind: 0, V: newV(id), ID: id})
+			ids = append(ids, id)
+		}
+		c.Batches = append(c.Batches, ops)
+		bigIDs = append(bigIDs, ids)
+	}
+	spare := make([]int, nBig) // documents a big segment may still lose
+	for b := range spare {
+		spare[b] = len(bigIDs[b]) - 5
+	}
+	gone := map[int]bool{}
+	var smallIDs []int
+	for sb := 0; sb < 2; sb++ {
+		var ops []sOp
+		docs := 0
+		for n := 1 + rng.Intn(2); n > 0; n-- {
+			id++
+			ops = append(ops, sOp{Kind: 0, V: newV(id), ID: id})
+			docs++
+			smallIDs = append(smallIDs, id)
+		}
+		for b := 0; b < nBig; b++ {
+			// the first big segment always gets a pending deletion from the first small batch
+			k := rng.Intn(spare[b] + 1)
+			if b == 0 && sb == 0 && k == 0 {
+				k = 1
+			}
+			for ; k > 0 && spare[b] > 0; k-- {
+				// high local numbers are the interesting ones: a too small offset makes them collide
+				cand := bigIDs[b][len(bigIDs[b])-1-rng.Intn(3)]
+				if rng.Intn(3) == 0 {
+					cand = bigIDs[b][rng.Intn(len(bigIDs[b]))]
+				}
+				if gone[cand] {
+					continue
+				}
+				gone[cand] = true
+				spare[b]--
+				if docs < 4 && rng.Intn(2) == 0 {
+					ops = append(ops, sOp{Kind: 1, V: newV(cand), ID: cand})
+					docs++
+				} else {
+					ops = append(ops, sOp{Kind: 2, ID: cand})
+				}
+			}
+		}
+		if sb == 1 && rng.Intn(3) == 0 { // the second small batch updates a document of the first
+			cand := smallIDs[0]
+			if docs < 4 {
+				ops = append(ops, sOp{Kind: 1, V: newV(cand), ID: cand})
+			}
+		}
+		c.Batches = append(c.Batches, ops)
+	}
+	if withTail {
+		// one more batch after the merge: a fresh segment behind the merged one.  Most of its
+		// documents carry the keyword of a document of the merged segment (there the keyword
+		// term has a single document: the merger writes it as a 1-hit postings list).
+		first := c.Batches[nBig][0].V
+		if !first.HasKw {
+			first.HasKw, first.Kw = true, sKwPool[rng.Intn(len(sKwPool))]
+			first.analyse()
+		}
+		var ops []sOp
+		for n := 3 + rng.Intn(2); n > 0; n-- {
+			id++
+			sv := newV(id)
+			if rng.Intn(4) != 0 {
+				sv.HasKw, sv.Kw = true, first.Kw
+				sv.analyse()
+			}
+			ops = append(ops, sOp{Kind: 0, V: sv, ID: id})
+		}
+		c.Batches = append(c.Batches, ops)
+	}
+	for _, ops := range c.Batches {
+		for _, op := range ops {
+			switch op.Kind {
+			case 0, 1:
+				c.Live[op.ID] = op.V
+			case 2:
+				delete(c.Live, op.ID)
+			}
+		}
+	}
+	return c, nBig
+}
+
+// sxSmallMergeConfig: the file merger merges the segments with < 5 live documents into one (as
+// long as that stays below 10) and never touches a segment with >= 5; no in-memory merging.
+func sxSmallMergeConfig(cfg bluge.Config) bluge.Config {
+	ic := cfg.VerifIndexConfig()
+	ic.MergePlanOptions.MaxSegmentsPerTier = 1
+	ic.MergePlanOptions.MaxSegmentSize = 10
+	ic.MergePlanOptions.TierGrowth = 10.0
+	ic.MergePlanOptions.SegmentsPerMergeTask = 10
+	ic.MergePlanOptions.FloorSegmentSize = 100
+	ic.MergePlanOptions.ReclaimDeletesWeight = 2.0
+	ic.MinSegmentsForInMemoryMerge = 1 << 30
+	return cfg.VerifWithIndexConfig(ic)
+}
+
+func sxOneBatch(w *bluge.Writer, ops []sOp) error { return sxApplyBatches(w, [][]sOp{ops}) }
+
+// sxMergedReader builds the corpus so that a merge introduction comes last; nil reader = the
+// layout was not reached within the bound (counted, not an error of the implementation).
+func (r *sxSearchRun) sxMergedReader(log *sxRootLog, c *sCorpus, nBig int, memory bool, dir string) (*bluge.Writer, *bluge.Reader, bluge.Config, error) {
+	var cfg bluge.Config
+	if memory {
+		cfg = sxMergeFreeConfig(bluge.InMemoryOnlyConfig())
+		ic := cfg.VerifIndexConfig()
+		ic.MinSegmentsForInMemoryMerge = 2
+		ic.UnsafeBatch = true
+		ic.PersisterNapTimeMSec = 120
+		ic.PersisterNapUnderNumFiles = 1000
+		cfg = cfg.VerifWithIndexConfig(ic)
+	} else {
+		cfg = sxSmallMergeConfig(bluge.DefaultConfig(dir))
+	}
+	w, err := bluge.OpenWriter(cfg)
+	if err != nil {
+		return nil, nil, cfg, err
+	}
+	iw := w.VerifIndexWriter()
+	fail := func(err error) (*bluge.Writer, *bluge.Reader, bluge.Config, error) {
+		_ = w.Close()
+		return nil, nil, cfg, err
+	}
+	allPersisted := func(n int) bool {
+		rd, err := w.Reader()
+		if err != nil {
+			return false
+		}
+		defer rd.Close()
+		_, segs := index.VerifSnapshotInfo(rd.VerifSnapshot())
+		if len(segs) != n {
+			return false
+		}
+		for _, s := range segs {
+			if !s.Persisted {
+				return false
+			}
+		}
+		return true
+	}
+	for b := 0; b < nBig; b++ {
+		if err := sxOneBatch(w, c.Batches[b]); err != nil {
+			return fail(err)
+		}
+		deadline := time.Now().Add(5 * time.Second)
+		for !allPersisted(b + 1) {
+			if time.Now().After(deadline) {
+				_ = w.Close()
+				return nil, nil, cfg, nil
+			}
+			time.Sleep(3 * time.Millisecond)
+		}
+	}
+	for b := nBig; b < nBig+2; b++ {
+		if err := sxOneBatch(w, c.Batches[b]); err != nil {
+			return fail(err)
+		}
+	}
+	// bounded poll for [big..., merged]
+	deadline := time.Now().Add(6 * time.Second)
+	lastNudge := time.Now()
+	for time.Now().Before(deadline) {
+		rd, err := w.Reader()
+		if err != nil {
+			return fail(err)
+		}
+		epoch, segs := index.VerifSnapshotInfo(rd.VerifSnapshot())
+		if len(segs) == nBig+1 && log.lastStructural(iw, epoch) == "introduceMerge" {
+			if len(c.Batches) == nBig+2 {
+				return w, rd, cfg, nil
+			}
+			// the other order: the merge, then one more batch (a fresh segment behind the merged one)
+			_ = rd.Close()
+			if err := sxOneBatch(w, c.Batches[nBig+2]); err != nil {
+				return fail(err)
+			}
+			rd, err = w.Reader()
+			if err != nil {
+				return fail(err)
+			}
+			return w, rd, cfg, nil
+		}
+		_ = rd.Close()
+		if len(segs) <= nBig+1 && !memory {
+			// merged, but a nudge was introduced after it: the offsets were recomputed by a
+			// batch introduction, this index cannot show a merge introduction any more
+			break
+		}
+		if !memory && time.Since(lastNudge) > 400*time.Millisecond {
+			// the file merger sleeps until a persistence round ends after it registered its
+			// watcher; an empty batch (no segment, no document) starts such a round
+			if err := w.Batch(bluge.NewBatch()); err != nil {
+				return fail(err)
+			}
+			lastNudge = time.Now()
+			r.w.Count("merged_layout_nudges", 1)
+		}
+		time.Sleep(4 * time.Millisecond)
+	}
+	_ = w.Close()
+	return nil, nil, cfg, nil
+}
+
+func (r *sxSearchRun) mergedCorpora(ci0, n, nQueries, nScripts int) error {
+	log := &sxRootLog{}
+	log.install()
+	defer log.uninstall()
+	reached := map[string]int{}
+	tried := map[string]bool{}
+	for k := 0; k < n; k++ {
+		memory := k%2 == 1
+		tail := k%4 >= 2
+		how := "file-merge"
+		if memory {
+			how = "memory-merge"
+		}
+		if tail {
+			how += "-then-batch"
+		}
+		tried[how] = true
+		done := false
+		for try := 0; try < 4 && !done; try++ {
+			c, nBig := sxGenMergeCorpus(r.rng, tail)
+			dir := filepath.Join(r.o.Out, "idx-merge")
+			_ = os.RemoveAll(dir)
+			if !memory {
+				if err := os.MkdirAll(dir, 0o755); err != nil {
+					return err
+				}
+			}
+			wr, rd, cfg, err := r.sxMergedReader(log, c, nBig, memory, dir)
+			if err != nil {
+				return err
+			}
+			if rd == nil {
+				r.w.Count("merged_layout_not_reached_"+how, 1)
+				continue
+			}
+			done = true
+			reached[how]++
+			r.w.Count("merged_layout_"+how, 1)
+			err = r.corpusOn(ci0+k, how, c, rd, cfg, nQueries, nScripts)
+			_ = rd.Close()
+			_ = wr.Close()
+			_ = os.RemoveAll(dir)
+			if err != nil {
+				return err
+			}
+		}
+	}
+	for _, how := range []string{"file-merge", "memory-merge", "file-merge-then-batch", "memory-merge-then-batch"} {
+		if !tried[how] {
+			continue
+		}
+		r.w.OracleEval(1)
+		if reached[how] == 0 {
+			r.w.OracleFail("merged-layout-not-reached", "no index with a merge introduction at the intended place could be built (harness, not a property violation): the merge-built roots went unchecked",
+				map[string]interface{}{"layout": how, "seed": r.o.Seed})
+		}
+	}
+	return nil
+}
+
 func sxIntsToI64(a []int) []int64 {
 	out := make([]int64, len(a))
 	for i, x := range a {
@@ -1588,12 +2015,21 @@ func (r *sxSearchRun) corpus(ci int, c *sCorpus, nQueries, nScripts int) error {
 	}
 	defer wr.Close()
 	defer rd.Close()
+	return r.corpusOn(ci, "batches", c, rd, cfg, nQueries, nScripts)
+}
+
+// corpusOn: query trees, oracle, model items and scripts on one reader of the corpus.
+func (r *sxSearchRun) corpusOn(ci int, how string, c *sCorpus, rd *bluge.Reader, cfg bluge.Config, nQueries, nScripts int) error {
 	lay, err := sxObserveLayout(rd, c)
 	if err != nil {
 		return err
 	}
 	env := &sxCoqEnv{c: c, lay: lay}
 	w := r.w
+	w.OracleEval(1)
+	if lay.Broken != "" {
+		w.OracleFail("doc-number-resolution", lay.Broken, map[string]interface{}{"corpus": ci, "layout": how, "seed": r.o.Seed})
+	}
 	w.Count(fmt.Sprintf("corpus_segments_%d", len(lay.Segs)), 1)
 	nDel := 0
 	for _, d := range lay.Deleted {
@@ -1607,9 +2043,15 @@ func (r *sxSearchRun) corpus(ci int, c *sCorpus, nQueries, nScripts int) error {
 	var items, itemMeta []string
 	nontrivial := false
 	live := c.liveIDs()
-	for qi := 0; qi < nQueries; qi++ {
-		depth := 1 + r.rng.Intn(4)
-		q := sxGenQuery(r.rng, c, depth)
+	targeted := sxTargetedQueries(c)
+	for qi := 0; qi < nQueries+len(targeted); qi++ {
+		var q *sxGq
+		if qi < nQueries {
+			q = sxGenQuery(r.rng, c, 1+r.rng.Intn(4))
+		} else {
+			q = targeted[qi-nQueries]
+			w.Count("queries_targeted_term_clauses", 1)
+		}
 		rcost, rblown := sxRangeCost(q)
 		if rblown {
 			w.Count("queries_skipped_enumerate_blowup", 1)
@@ -1628,7 +2070,7 @@ func (r *sxSearchRun) corpus(ci int, c *sCorpus, nQueries, nScripts int) error {
 		w.Count(fmt.Sprintf("query_depth_%d", q.depth()), 1)
 		want, masked := q.expected(c)
 		modes := []int{sxModeAll, sxModeTopN}
-		if qi%3 == 0 {
+		if qi%3 == 0 || qi >= nQueries {
 			modes = append(modes, sxModeNoScore)
 		}
 		if qi%7 == 0 {
@@ -1637,7 +2079,7 @@ func (r *sxSearchRun) corpus(ci int, c *sCorpus, nQueries, nScripts int) error {
 		bq := q.bluge()
 		for _, mode := range modes {
 			out := sxGuardedSearch(rd, bq, mode)
-			desc := map[string]interface{}{"corpus": ci, "query": q.String(), "mode": sModeNames[mode], "seed": r.o.Seed}
+			desc := map[string]interface{}{"corpus": ci, "layout": how, "query": q.String(), "mode": sModeNames[mode], "seed": r.o.Seed}
 			if out.hung {
 				w.Abort("search-hang", "search did not return within 20s", desc)
 			}
@@ -1689,7 +2131,7 @@ func (r *sxSearchRun) corpus(ci int, c *sCorpus, nQueries, nScripts int) error {
 	items = append(items, sitems...)
 	itemMeta = append(itemMeta, smeta...)
 	w.Add(fmt.Sprintf("CCorpus %s %s", lay.coq(), cq.List(items)), "corpus", nontrivial || len(sitems) > 0,
-		map[string]interface{}{"corpus": ci, "items": itemMeta, "segments": len(lay.Segs), "docs": len(lay.NumToV), "seed": r.o.Seed})
+		map[string]interface{}{"corpus": ci, "layout": how, "items": itemMeta, "segments": len(lay.Segs), "docs": len(lay.NumToV), "seed": r.o.Seed})
 	return nil
 }
 
